@@ -1,7 +1,18 @@
 import itertools
+import os
 
 from vlib import Prop
 from props.c16 import hx
+
+# DESIGN.md section 9, reading R-02s: a SETTINGS payload that ends inside an (identifier, value) entry is
+# H3_FRAME_ERROR (RFC 9114 7.1 paragraph 5).  The unchanged code answers H3_SETTINGS_ERROR.  With
+# VERIF_C02_STRICT_SETTINGS=1 every case of this property is judged under that reading alone (ops `decS`,
+# `loopS`, `callsS`: same code path in the harness, strict oracle `observeS` in the Lean driver); the default
+# run also accepts the answer of `Spec.Framing.observe` (H3_SETTINGS_ERROR) on exactly those payloads.
+STRICT_SETTINGS = os.environ.get("VERIF_C02_STRICT_SETTINGS", "0") == "1"
+
+# payload sizes around the boundaries of the varint length forms (1/2/4 bytes) and beyond one 64 KiB buffer
+LONG_SIZES = [63, 64, 65, 300, 16383, 16384, 16385, 70000]
 
 ALPHA = [0x00, 0x01, 0x02, 0x03, 0x04, 0x05, 0x06, 0x07, 0x08, 0x09, 0x0d, 0x0f, 0x21, 0x40, 0x41, 0x80, 0xc0, 0xff]
 KNOWN = [0x0, 0x1, 0x3, 0x4, 0x5, 0x7, 0xd]
@@ -61,6 +72,35 @@ def script(parts, ending, rng=None, pend=0.0):
     return ",".join(ev) if ev else "-"
 
 
+def chunks_of(bs, n):
+    return [bs[i:i + n] for i in range(0, len(bs), n)]
+
+
+def judge(queries):
+    """verdicts of the Lean judge (`H3.Spec.Framing.judgeLoop` / `judgeCalls`, op `fs judge`) on observed answers"""
+    import vlib
+    if not queries:
+        return []
+    w = vlib.workers_for()
+    if w <= 1 or len(queries) < 4000:
+        parts = [queries]
+    else:
+        n = (len(queries) + w - 1) // w
+        parts = [queries[i:i + n] for i in range(0, len(queries), n)]
+
+    def one(part):
+        rc, out, err = vlib.run_lines(vlib.DRV, part)
+        if rc != 0 or len(out) != len(part):
+            raise RuntimeError("h3drv fs judge failed rc=%s out=%d/%d %s" % (rc, len(out), len(part), err[-300:]))
+        return out
+    if len(parts) == 1:
+        return one(parts[0])
+    from concurrent.futures import ThreadPoolExecutor
+    with ThreadPoolExecutor(max_workers=w) as ex:
+        res = list(ex.map(one, parts))
+    return [o for part in res for o in part]
+
+
 def payload_for(ty, rng, valid=True):
     if ty in (0x3, 0x7, 0xd):
         return safe_varint(rng.choice([0, 1, 4, 63, 64, 300, 2**20, 2**40]), rng.choice([None, None, 0, 1, 2, 3]))
@@ -89,7 +129,7 @@ def frame(ty, payload, rng, tform=None, lform=None, lendelta=0):
 
 class C02(Prop):
     id = "C02"
-    modules = ["H3.Props.C02", "H3.Lemmas.GenAgreeFrame"]
+    modules = ["H3.Props.C02", "H3.Lemmas.GenAgreeFrame", "H3.Lemmas.GenAgreeReq", "H3.Lemmas.GenAgreeCtl"]
     engines = ["frame", "fs"]
     design_ref = "DESIGN.md section 7, C02 and Appendix B.1"
     level_text = ("Lean theorems (unbounded, all proved in full) over models of Frame::decode, FrameDecoder::decode, "
@@ -101,18 +141,43 @@ class C02(Prop):
                   "consumed, consumed offsets are segment boundaries, hence independent of chunking; after FIN no call is Pending and "
                   "truncation (also inside DATA, also at a chunk boundary) ends the reader loop with UnexpectedEnd, never a clean end; "
                   "the reference automaton agrees with the RFC oracle `observe`, so the reader loop's observations are those of "
-                  "`observe w ending` for all chunkings")
+                  "`observe w ending` for all chunkings; at the two callers (request stream, control stream) Malformed and "
+                  "UnexpectedEnd become the connection error H3_FRAME_ERROR, by the arms of got_frame_error / "
+                  "handle_frame_stream_error_on_request_stream / poll_control as re-read on this run "
+                  "(C02_frame_error_code_at_callers); the strict SETTINGS reading R-02s (`observeS`) differs from `observe` only on "
+                  "SETTINGS payloads that end inside an entry; the driver's fast evaluation is the model "
+                  "(C02_driver_runs_the_model)")
     level_note = ("trusted: Lean kernel + 3 standard axioms; hand model tied to the code by running real FrameStream over a scripted "
                   "RecvStream on the same scripts (all short strings over an 18-byte alphabet x all cut patterns x endings, "
                   "frame sequences with every type/length form, mutations, random call sequences); Cursor/BufList read-through is "
-                  "covered by the cuts; SETTINGS payload details belong to C13; WebTransport 0x41 header belongs to C19")
-    rule = ("cases: `frame dec` and `fs loop`/`fs calls` lines; strings: all of length<=3 (quick) / <=4 (thorough) over an 18-byte "
-            "alphabet x all 2^(n-1) cut patterns x {fin, open}; grammar-built frame sequences (every known/H2/unknown type, all "
-            "varint forms, length field +-1/2, truncation at every offset) x all cuts if <=9 bytes else random cuts, Pending "
-            "inserted, endings fin/open/reset; random call sequences; non-trivial = the implementation emitted at least one frame, "
-            "data piece or error (not only `P`/`N`/bad-op)")
+                  "covered by the cuts; SETTINGS payload details belong to C13; WebTransport 0x41 header belongs to C19; "
+                  "answer sequences that the property does not fix uniquely (arbitrary call sequences, reset streams, DATA cut by "
+                  "FIN) are judged by the chunk-blind Lean predicate H3.Spec.Framing.judgeLoop/judgeCalls (not a theorem about the "
+                  "model: a run-time oracle on the implementation's and the model's answers); OPEN FINDING kept out of the default "
+                  "run: a SETTINGS payload that ends inside an entry is reported as H3_SETTINGS_ERROR where RFC 9114 7.1 says "
+                  "H3_FRAME_ERROR (reading R-02s; VERIF_C02_STRICT_SETTINGS=1 bin/check C02 shows it)")
+    rule = ("cases: `frame dec` and `fs loop`/`fs calls` lines (with VERIF_C02_STRICT_SETTINGS=1 the same cases as `decS`/`loopS`/"
+            "`callsS`, judged under the strict SETTINGS reading R-02s). (1) all strings of length<=3 (quick) / <=4 (thorough) over "
+            "an 18-byte alphabet x all 2^(n-1) cut patterns x {fin, open}; (2) grammar-built sequences of 1-4 short frames (every "
+            "known/H2/unknown type, all varint forms of type and length, payloads of 0-9 bytes, length field +-1/2, a random "
+            "truncation, a random byte mutation) x all cuts if <=7 (quick) / <=9 (thorough) bytes else random cuts, Pending "
+            "inserted, endings fin/open/reset, plus random poll_next/poll_data call sequences; (3) one well-formed sequence "
+            "truncated at every offset; (4) LONG frames: DATA, HEADERS, a 1-byte and an 8-byte unknown type with payloads of "
+            "63, 64, 65, 300, 16383, 16384, 16385, 70000 random bytes, the length field in its minimal form and in every longer "
+            "(non-minimal) form, complete and followed by a GOAWAY (so a wrong boundary shows), delivered whole and in chunks of "
+            "16384, 1000, 7 and 1 bytes (1-byte chunks: DATA at every size, the buffered types up to 16385 in the thorough tier "
+            "and up to 300 in the quick tier), endings fin/open, "
+            "and for each: one byte short + fin, one byte short + reset, the header cut inside the length field, `frame dec` "
+            "of the whole and of the one-byte-short buffer, and one `fs calls` history; SETTINGS frames of 21..23334 entries with "
+            "unknown identifiers (payloads of 63..70000 bytes) complete / with the last entry cut; (5) SETTINGS payloads that "
+            "end inside an entry (identifier cut, value missing, value cut; after 0-2 complete entries; with and without a "
+            "reserved or repeated identifier before the cut) x all cuts x fin/open. No complete frame with a payload above "
+            "70000 bytes is generated. Every `fs` answer sequence is also sent through the Lean judge (`fs judge`, "
+            "H3.Spec.Framing.judgeLoop/judgeCalls) and carries its verdict; non-trivial = the implementation emitted at least "
+            "one frame, data piece or error (not only `P`/`N`/bad-op)")
     trusted = ["bytes::Bytes split_to/advance semantics",
-               "translator decision table H3.Gen.FrameDispatch (Frame::decode: frame type -> payload parser / Frame variant, the HTTP/2-reserved types, unknown = skipped) and H3.Gen.FrameErrCodes (arms of FrameDecoder::decode, got_frame_error), re-read from h3/src/proto/frame.rs, h3/src/frame.rs, h3/src/error/internal_error.rs on this run (any other shape of these functions is refused); tied to the model by H3.Lemmas.GenAgreeFrame (decode_agrees: H3.Frame.decode = the decoder written over the generated table, for every byte string), rebuilt on this run"]
+               "translator decision table H3.Gen.FrameDispatch (Frame::decode: frame type -> payload parser / Frame variant, the HTTP/2-reserved types, unknown = skipped) and H3.Gen.FrameErrCodes (arms of FrameDecoder::decode, got_frame_error), re-read from h3/src/proto/frame.rs, h3/src/frame.rs, h3/src/error/internal_error.rs on this run (any other shape of these functions is refused); tied to the model by H3.Lemmas.GenAgreeFrame (decode_agrees: H3.Frame.decode = the decoder written over the generated table, for every byte string), rebuilt on this run",
+               "translator tables H3.Gen.FrameErrCodes.code / requestStreamUnexpectedEnd and H3.Gen.CtlArms.onTruncated / onProto (the error codes at the two callers), tied to the models H3.ReqRecv.fsErr / H3.Control.classify by H3.Lemmas.GenAgreeReq (frameErrCode_agrees, fsErr_agrees) and H3.Lemmas.GenAgreeCtl (protoCode_agrees, classify_truncated, classify_proto)"]
     assumptions = ["transport chunks are non-empty (R-T)", "for RESET endings only the prefix claim is made (App. B.1)"]
 
     def cases(self, tier, rng):
@@ -177,7 +242,124 @@ class C02(Prop):
                 parts = [p for p in parts if p]
                 for ending in ("fin", "open"):
                     add("fs loop " + script(parts, ending))
+        # 4. long frames: payload sizes around the boundaries of the length forms, every length encoding, coarse and fine chunks
+        GO = [0x07, 0x01, 0x05]
+        for ty in (0x0, 0x1, 0x21, 2**30 + 5):
+            buffered = ty != 0x0           # DATA payload is handed out as it arrives, the others are buffered whole
+            for size in LONG_SIZES:
+                need = 0 if size < 64 else 1 if size < 2**14 else 2
+                for lform in range(need, 4):
+                    pl = [rng.randrange(256) for _ in range(size)]
+                    hdr = safe_varint(ty, None) + varint(size, lform)
+                    fr = hdr + pl
+                    bs = fr + GO
+                    add("frame dec " + hx(bs))
+                    add("frame dec " + hx(fr[:-1]))
+                    sizes = [16384, 1000, 7]
+                    if (not buffered) or size <= (16385 if big else 300):
+                        sizes.append(1)
+                    if not big and lform not in (need, 3):
+                        sizes = [rng.choice(sizes)]       # quick: the middle forms get one chunking each
+                    add("fs loop " + script([bs], "fin"))
+                    for n in sizes:
+                        if n >= len(bs):
+                            continue
+                        for ending in (("fin", "open") if n in (7, 16384) or big else ("fin",)):
+                            add("fs loop " + script(chunks_of(bs, n), ending))
+                    n = rng.choice([7, 1000, 16384])
+                    # one byte short: truncation / reset inside the long payload; header cut inside the length field
+                    add("fs loop " + script(chunks_of(fr[:-1], n), "fin"))
+                    add("fs loop " + script(chunks_of(fr[:-1], n), "reset", rng))
+                    add("fs loop " + script(chunks_of(bs, n) + [[0x00]], "reset", rng))
+                    add("fs loop " + script([hdr[:-1]], "fin"))
+                    k = len(chunks_of(bs, n))
+                    calls = "n" + ("d" * (k + 2) if ty == 0x0 else "") + "nn"
+                    add("fs calls %s %s" % (script(chunks_of(bs, n), "fin"), calls))
+        # SETTINGS with many entries of unknown identifiers (a payload far beyond what h3 itself ever encodes)
+        for nent in (21, 42, 43, 100, 1000, 5462):
+            pl = []
+            for k in range(nent - 1):
+                pl += varint(0x1f * (k + 2) + 0x21) + [k % 64]
+            pl += varint(0x6) + varint(4096)
+            for lform in (None, 3):
+                fr = [0x04] + safe_varint(len(pl), lform) + pl
+                bs = fr + GO
+                add("frame dec " + hx(bs))
+                for n in (len(bs), 16384, 1000, 7):
+                    if n < len(bs) or n == len(bs):
+                        add("fs loop " + script(chunks_of(bs, n), "fin"))
+                # the last entry cut (declared length shortened by one): the payload ends inside an entry
+                cutfr = [0x04] + safe_varint(len(pl) - 1, lform) + pl[:-1]
+                add("frame dec " + hx(cutfr + GO))
+                add("fs loop " + script(chunks_of(cutfr + GO, 1000), "fin"))
+        # 5. SETTINGS payloads that end inside an entry (reading R-02s)
+        pre_ok = [[], [0x06, 0x10], [0x21, 0x00, 0x08, 0x01]]
+        pre_bad = [[0x00, 0x00], [0x02, 0x05], [0x06, 0x10, 0x06, 0x11], [0x21, 0x00, 0x04, 0x01]]
+        tails = [[0x06], [0x40], [0x06, 0x40], [0x80, 0x00, 0x00], [0x01, 0xc0, 0x00, 0x00], [0xc0, 0x00, 0x00, 0x00, 0x00, 0x00, 0x00, 0x06],
+                 [0x00], [0x06, 0x80, 0x01]]
+        for pre in pre_ok + pre_bad:
+            for tail in tails:
+                pl = pre + tail
+                for lform in (None, 1):
+                    fr = [0x04] + safe_varint(len(pl), lform) + pl
+                    for bs in (fr, fr + GO, [0x21, 0x01, 0xee] + fr):
+                        add("frame dec " + hx(bs))
+                        cs = list(cuts_all(bs)) if len(bs) <= 7 else [[bs], [[b] for b in bs]] + [cuts_random(bs, rng) for _ in range(3)]
+                        for parts in cs:
+                            for ending in ("fin", "open"):
+                                add("fs loop " + script(parts, ending))
+                        add("fs calls %s %s" % (script(cuts_random(bs, rng), "fin"), "nnn"))
+        # spread the long lines evenly over the list (the runs are split into contiguous parts, one per worker)
+        longs = [l for l in L if len(l) > 4000]
+        if longs:
+            short = [l for l in L if len(l) <= 4000]
+            step = max(1, len(short) // len(longs))
+            L = []
+            for i, l in enumerate(longs):
+                L.extend(short[i * step:(i + 1) * step])
+                L.append(l)
+            L.extend(short[len(longs) * step:])
+        if STRICT_SETTINGS:
+            L = [self.strict_line(l) for l in L]
         return L
+
+    @staticmethod
+    def strict_line(l):
+        w = l.split(" ")
+        if w[0] in ("frame", "fs") and w[1] in ("dec", "loop", "calls"):
+            w[1] += "S"
+        return " ".join(w)
+
+    def project_all(self, lines, impls):
+        """Every `fs` answer sequence gets the verdict of the chunk-blind Lean judge in front (`ok` / `BAD@<i>`);
+        the driver prints the verdict on the model's own answers the same way."""
+        res = list(impls)
+        idx, qs = [], []
+        for k, (l, o) in enumerate(zip(lines, impls)):
+            w = l.split()
+            if len(w) < 3 or w[0] != "fs" or o in ("bad-op", "hang", "abort"):
+                continue
+            strict = "1" if w[1].endswith("S") else "0"
+            op = w[1].rstrip("S")
+            if op == "loop" and len(w) == 3:
+                qs.append("fs judge %s loop %s @@ %s" % (strict, w[2], o))
+            elif op == "calls" and len(w) == 4:
+                qs.append("fs judge %s calls %s %s @@ %s" % (strict, w[2], w[3], o))
+            else:
+                continue
+            idx.append(k)
+        for k, v in zip(idx, judge(qs)):
+            res[k] = (v + " " + impls[k]).strip()
+        return res
+
+    def project(self, line, impl):
+        return self.project_all([line], [impl])[0]
+
+    def klass_raw(self, line, raw):
+        return self.klass(line, raw)
+
+    def trivial_raw(self, line, raw):
+        return self.trivial(line, raw)
 
     def klass(self, line, impl):
         w = line.split()
@@ -186,7 +368,8 @@ class C02(Prop):
         last = impl.split(" ")[-1] if impl else "empty"
         kind = last.split(":")[0] + (":" + last.split(":")[1] if last.startswith("E:") else "")
         nfr = sum(1 for t in impl.split(" ") if t.startswith("F:"))
-        return "fs/%s/end=%s/frames=%s" % (w[1], kind, min(nfr, 3))
+        nbig = sum(1 for t in impl.split(" ") if len(t) > 2 * 63 + 12)
+        return "fs/%s/end=%s/frames=%s%s" % (w[1], kind, min(nfr, 3), "/long" if nbig else "")
 
     def trivial(self, line, impl):
         if impl in ("bad-op", "P", "N", ""):
@@ -199,10 +382,29 @@ class C02(Prop):
         w = line.split()
         out = []
         if w[0] == "frame" and w[2] != "-" and len(w[2]) > 2:
-            out.append("frame dec " + w[2][:-2])
-            out.append("frame dec " + w[2][2:])
+            out.append("frame %s %s" % (w[1], w[2][:-2]))
+            out.append("frame %s %s" % (w[1], w[2][2:]))
         if w[0] == "fs":
             evs = w[2].split(",") if w[2] != "-" else []
+            if len(evs) > 40:
+                # a long script: first try coarse steps (all chunks of a run merged; adjacent chunks merged pairwise)
+                def merged(group):
+                    m, run = [], []
+                    for e in evs:
+                        if e.startswith("c") and len(run) < group:
+                            run.append(e[1:])
+                            continue
+                        if run:
+                            m.append("c" + "".join(run))
+                        run = [e[1:]] if e.startswith("c") else []
+                        if not e.startswith("c"):
+                            m.append(e)
+                    if run:
+                        m.append("c" + "".join(run))
+                    return m
+                for g in (len(evs), 64, 8, 2):
+                    out.append(" ".join(w[:2] + [",".join(merged(g))] + w[3:]))
+                return out
             for i in range(len(evs)):
                 rest = evs[:i] + evs[i + 1:]
                 out.append(" ".join(w[:2] + [",".join(rest) if rest else "-"] + w[3:]))
